@@ -253,6 +253,8 @@ pub fn replay<F: Elem>(trans: impl Iterator<Item = Value>, big: bool) -> Report 
             if !first { continue; }
         }
         if rep.transitions % 997 == 1 { rep.sample(&t); }
+        if op == "sqrt" && !F::has_sqrt() { continue; }
+        intent(&t);
         for (name, f) in variants::<F>(ev, big) {
             rep.evaluations += 1;
             let mut regs = pre.clone();
@@ -293,3 +295,248 @@ pub fn replay<F: Elem>(trans: impl Iterator<Item = Value>, big: bool) -> Report 
 
 #[allow(dead_code)]
 pub fn biguint_from_limbs(l: &[u64]) -> BigUint { limbs_to_biguint(l) }
+
+// ---------------------------------------------------------------------------------------
+// Conformance B: seeded random programs on the real code, logged as an ndjson trace that
+// TLC validates against FieldMachine (spec/trace/Trace_Field.tla).
+
+/// Boundary alphabet of a prime field with modulus p and N limbs (values are reduced mod p).
+pub fn boundary_values(p: &BigUint, nlimbs: usize) -> Vec<BigUint> {
+    use num_traits::One;
+    let one = BigUint::one();
+    let mut v: Vec<BigUint> = vec![BigUint::from(0u32), one.clone(), BigUint::from(2u32), BigUint::from(3u32)];
+    let pm = |k: u32| (p + p - BigUint::from(k)) % p;
+    v.extend([pm(1), pm(2), pm(3), (p - &one) >> 1, ((p - &one) >> 1) + &one, p >> 2]);
+    for k in 1..=nlimbs {
+        let w = &one << (64 * k);
+        v.push(&w % p);
+        v.push((&w - &one) % p);
+        v.push((&w + &one) % p);
+        v.push((&one << (64 * k - 1)) % p);
+        v.push((p + p - (&w % p)) % p);
+    }
+    // all-ones limbs, alternating patterns
+    let ones = (&one << (64 * nlimbs)) - &one;
+    v.push(&ones % p);
+    v.push((&ones / BigUint::from(3u32)) % p);
+    // Montgomery constants seen as values
+    let r = (&one << (64 * nlimbs)) % p;
+    v.push((&r * &r) % p);
+    v.push(r.modpow(&(p - BigUint::from(2u32)), p));
+    v.push(BigUint::from(u32::MAX));
+    v.push(BigUint::from(u64::MAX) % p);
+    v.sort();
+    v.dedup();
+    v
+}
+
+fn random_coord(rng: &mut Rng, p: &BigUint, alpha: &[BigUint]) -> BigUint {
+    match rng.below(10) {
+        0..=3 => rng.biguint_below(p),
+        4..=7 => rng.pick(alpha).clone(),
+        8 => BigUint::from(0u32),
+        _ => BigUint::from(rng.below(4)),
+    }
+}
+
+fn random_elem<F: Elem>(rng: &mut Rng, alpha: &[BigUint]) -> F {
+    let p = F::modulus();
+    let deg: usize = F::shape().iter().product();
+    let style = rng.below(8);
+    let coords: Vec<BigUint> = (0..deg)
+        .map(|i| match style {
+            0 => if i == 0 { random_coord(rng, &p, alpha) } else { BigUint::from(0u32) }, // prime-field element
+            1 => if rng.below(3) == 0 { random_coord(rng, &p, alpha) } else { BigUint::from(0u32) }, // sparse
+            _ => random_coord(rng, &p, alpha),
+        })
+        .collect();
+    F::from_coords(&coords)
+}
+
+pub fn record<F: Elem>(cfg: &str, seed: u64, n: usize, out: &mut dyn std::io::Write) -> Report {
+    let mut rep = Report::default();
+    let mut rng = Rng(seed ^ 0xF1E1D);
+    let p = F::modulus();
+    let nl = F::nlimbs();
+    let alpha = boundary_values(&p, nl);
+    let is_prime = F::shape().is_empty();
+    const K: usize = 4;
+    let mut regs: Vec<F> = vec![F::zero(); K];
+    let hdr = json!({"op": "reset", "cfg": cfg, "p": num_to_json(&p, true), "nlimbs": nl,
+                     "lv": F::levels(true), "nreg": K, "seed": seed});
+    writeln!(out, "{}", hdr).unwrap();
+    let extdeg: usize = F::shape().iter().product();
+    // exponents for pow
+    let pow_exps = |rng: &mut Rng| -> BigUint {
+        use num_traits::One;
+        let one = BigUint::one();
+        match rng.below(12) {
+            0 => BigUint::from(0u32),
+            1 => one.clone(),
+            2 => BigUint::from(2u32),
+            3 => &p - &one,
+            4 => p.clone(),
+            5 => &p - BigUint::from(2u32),
+            6 => (&p - &one) >> 1,
+            7 => BigUint::from(u64::MAX),
+            8 => (&one << (64 * nl)) - &one,
+            9 => &one << 64,
+            _ => rng.biguint_below(&(&one << (64 * nl))),
+        }
+    };
+    // budget (in base-field multiplications on the validator side) for pow / Frobenius events
+    let mut heavy_budget: u64 = 3_000_000 + 2_000 * n as u64;
+    let mut step = 0usize;
+    while step < n {
+        step += 1;
+        let d = rng.below(K as u64) as usize;
+        let s = rng.below(K as u64) as usize;
+        // choose the next event
+        let choice = rng.below(100);
+        let mut ev: Value = match choice {
+            0..=14 => json!({"op": "load", "d": d + 1}),
+            15..=24 => json!({"op": "add", "d": d + 1, "s": s + 1}),
+            25..=32 => json!({"op": "sub", "d": d + 1, "s": s + 1}),
+            33..=46 => json!({"op": "mul", "d": d + 1, "s": s + 1}),
+            47..=49 => if regs[s].is_zero() { continue } else { json!({"op": "div", "d": d + 1, "s": s + 1}) },
+            50..=52 => json!({"op": "neg", "d": d + 1}),
+            53..=55 => json!({"op": "dbl", "d": d + 1}),
+            56..=61 => json!({"op": "sqr", "d": d + 1}),
+            62..=66 => json!({"op": "inv", "d": d + 1}),
+            67..=68 => {
+                // the validator computes x^e by square-and-multiply in TLA+: keep a cost budget
+                let e = pow_exps(&mut rng);
+                let cost = (e.bits() + 1) * (extdeg * extdeg) as u64;
+                if cost > heavy_budget { continue }
+                heavy_budget -= cost;
+                json!({"op": "pow", "d": d + 1, "e": num_to_json(&e, true)})
+            }
+            69..=70 => {
+                let k = rng.below(extdeg as u64 + 3);
+                let cost = (k % extdeg as u64) * p.bits() * (extdeg * extdeg) as u64 * 3 / 2;
+                if cost > heavy_budget { continue }
+                heavy_budget -= cost;
+                json!({"op": "frob", "d": d + 1, "n": k})
+            }
+            71..=74 => {
+                let tys = ["u8", "u16", "u32", "u64", "u128", "i8", "i16", "i32", "i64", "i128", "bool"];
+                let ty = *rng.pick(&tys);
+                let bits: u32 = match ty { "u8" | "i8" => 8, "u16" | "i16" => 16, "u32" | "i32" => 32, "u64" | "i64" => 64, "bool" => 1, _ => 128 };
+                let signed = ty.starts_with('i');
+                let neg = signed && rng.coin();
+                let maxmag: u128 = if ty == "bool" { 1 } else if signed { if neg { 1u128 << (bits - 1) } else { (1u128 << (bits - 1)) - 1 } } else if bits == 128 { u128::MAX } else { (1u128 << bits) - 1 };
+                let mag: u128 = match rng.below(5) {
+                    0 => maxmag,
+                    1 => if neg { 1 } else { 0 },
+                    2 => maxmag - (maxmag > 0) as u128 * (rng.below(3) as u128).min(maxmag),
+                    _ => { let r = ((rng.next() as u128) << 64) | rng.next() as u128; if maxmag == u128::MAX { r } else { r % (maxmag + 1) } }
+                };
+                let mag = if neg && mag == 0 { 1 } else { mag };
+                json!({"op": "from_int", "d": d + 1, "ty": ty, "neg": neg, "mag": num_to_json(&BigUint::from(mag), true)})
+            }
+            75..=79 => {
+                let lens = [0usize, 1, 2, 3, 4, 5, 6, 8, 9, 11, 12, 16, 17, 33];
+                let m = *rng.pick(&lens);
+                let is: Vec<u64> = (0..m).map(|_| rng.below(K as u64) + 1).collect();
+                let js: Vec<u64> = (0..m).map(|_| rng.below(K as u64) + 1).collect();
+                json!({"op": "sum_of_products", "d": d + 1, "is": is, "js": js})
+            }
+            80..=82 => {
+                let mut ds: Vec<u64> = (1..=K as u64).filter(|_| rng.coin()).collect();
+                let c = if rng.coin() { 0 } else { rng.below(K as u64) + 1 };
+                ds.retain(|&x| x != c);
+                if rng.coin() { ds.reverse(); }
+                json!({"op": "batch_inv", "ds": ds, "c": c})
+            }
+            83..=88 => { let q = *rng.pick(&["is_zero", "is_one", "eq", "cmp", "legendre"]);
+                         let s2 = if q == "eq" || q == "cmp" { s } else { d };
+                         json!({"op": q, "d": d + 1, "s": s2 + 1}) }
+            89..=92 => if !F::has_sqrt() { continue } else { json!({"op": "sqrt", "d": d + 1}) },
+            93..=95 => if !is_prime { continue } else {
+                let maxlen = 2 * 8 * nl + 3;
+                let len = match rng.below(6) { 0 => 0, 1 => 8 * nl, 2 => 8 * nl + 1, 3 => maxlen, _ => rng.below(maxlen as u64 + 1) as usize };
+                let bytes = match rng.below(4) { 0 => vec![0xffu8; len], 1 => { let mut b = vec![0u8; len]; if len > 0 { b[len - 1] = 1; } b } _ => rng.bytes(len) };
+                json!({"op": "from_bytes_mod", "d": d + 1, "be": rng.coin(), "bytes": bytes_json(&bytes)})
+            },
+            96..=97 => if !is_prime { continue } else {
+                use num_traits::One;
+                let one = BigUint::one();
+                let top = &one << (64 * nl);
+                let v = match rng.below(8) { 0 => p.clone(), 1 => &p + &one, 2 => &p - &one, 3 => &top - &one, 4 => BigUint::from(0u32), 5 => rng.biguint_below(&p), _ => rng.biguint_below(&top) };
+                json!({"op": "from_bigint", "d": d + 1, "v": num_to_json(&v, true)})
+            },
+            _ => if !is_prime { continue } else { json!({"op": "into_bigint", "d": d + 1}) },
+        };
+        let op = ev["op"].as_str().unwrap().to_string();
+        rep.op(&op);
+        intent(&json!({"machine": "field", "cfg": cfg, "seed": seed, "step": step, "event": ev}));
+        let before = regs.clone();
+        let mut ret = Value::Null;
+        let mut failure: Option<String> = None;
+        if op == "load" {
+            // correlated operands now and then
+            regs[d] = match rng.below(8) {
+                0 => regs[s],
+                1 => { let x = regs[s].to_abs(true).ok(); match x { Some(_) => F::from_coords(&coords_neg::<F>(&regs[s])), None => random_elem::<F>(&mut rng, &alpha) } }
+                _ => random_elem::<F>(&mut rng, &alpha),
+            };
+        } else {
+            let evc = ev.clone();
+            let vs = variants::<F>(&evc, true);
+            let k = rng.below(vs.len() as u64) as usize;
+            let (name, f) = &vs[k];
+            ev["via"] = json!(name);
+            match guarded(|| f(&mut regs)) {
+                Ok(r) => ret = r,
+                Err(e) => { failure = Some(e); regs = before.clone(); }
+            }
+        }
+        rep.evaluations += 1;
+        // written registers: the destination(s) and anything else that changed
+        let mut w: Vec<Value> = Vec::new();
+        for i in 0..K {
+            let named = ev.get("d").and_then(|x| x.as_u64()) == Some(i as u64 + 1)
+                || ev.get("ds").and_then(|x| x.as_array()).map_or(false, |a| a.iter().any(|x| x.as_u64() == Some(i as u64 + 1)));
+            let changed = regs[i] != before[i] || regs[i].raw_json() != before[i].raw_json();
+            let is_query = ["is_zero", "is_one", "eq", "cmp", "legendre", "into_bigint"].contains(&op.as_str());
+            if changed || (named && !is_query && !(op == "sqrt" && ret == json!("none"))) {
+                w.push(json!([i + 1, regs[i].raw_json()]));
+            }
+        }
+        ev["w"] = Value::Array(w);
+        if !ret.is_null() { ev["ret"] = ret; }
+        if let Some(f) = failure { ev["panic"] = json!(f); }
+        if regs.iter().zip(&before).any(|(a, b)| a != b && !a.is_zero() && !a.is_one()) {
+            rep.nontrivial.insert(format!("{}:{}", op, step));
+        }
+        rep.sample(&ev);
+        writeln!(out, "{}", ev).unwrap();
+
+    }
+    rep.transitions = n as u64;
+    rep
+}
+
+/// coordinates of -x computed with num-bigint from the decoded coordinates of x
+fn coords_neg<F: Elem>(x: &F) -> Vec<BigUint> {
+    let p = F::modulus();
+    fn flat(v: &Value, out: &mut Vec<BigUint>, leaf: bool) {
+        let _ = leaf;
+        match v {
+            Value::Array(a) if a.iter().all(|e| e.is_array()) && !a.is_empty() => for e in a { flat(e, out, false) },
+            _ => out.push(num_from_json(v, true)),
+        }
+    }
+    let abs = x.to_abs(true).expect("canonical");
+    let mut c = Vec::new();
+    // leaves are byte arrays; distinguish by the declared shape instead of by structure
+    fn walk(v: &Value, shape: &[usize], out: &mut Vec<BigUint>) {
+        match shape.split_last() {
+            None => out.push(num_from_json(v, true)),
+            Some((_, rest)) => for e in v.as_array().unwrap() { walk(e, rest, out) },
+        }
+    }
+    let _ = flat;
+    walk(&abs, &F::shape(), &mut c);
+    c.into_iter().map(|v| if v == BigUint::from(0u32) { v } else { &p - v }).collect()
+}
